@@ -1,4 +1,226 @@
+/-
+  C20 — canonicalising a key sorts its encoding and changes nothing else.
+-/
+import CosetProofs.Props.C16
 import CosetModel.Api
 namespace Coset.Props.C20
+open Coset Coset.Cbor Coset.Props.C16
+
+/-- canonicalisation never panics (labels always serialise), for either ordering. -/
+theorem never_panics (k : CoseKey) (ord : CborOrdering) : ∃ k', k.canonicalize ord = .ok k' := by
+  cases ord with
+  | lexicographic => exact ⟨_, rfl⟩
+  | lengthFirstLexicographic =>
+    have : k.params.all (fun p => (Label.toVec p.1).isOk) = true := by
+      rw [List.all_eq_true]; intro p _; rw [toVec_eq]; rfl
+    simp [CoseKey.canonicalize, this]
+
+/-- every typed field is unchanged and the extra parameters are a permutation of what they were. -/
+theorem perm (k k' : CoseKey) (ord : CborOrdering) (h : k.canonicalize ord = .ok k') :
+    k'.kty = k.kty ∧ k'.keyId = k.keyId ∧ k'.alg = k.alg ∧ k'.keyOps = k.keyOps ∧ k'.baseIv = k.baseIv ∧ k'.params.Perm k.params := by
+  cases ord with
+  | lexicographic =>
+    simp [CoseKey.canonicalize] at h; subst h
+    exact ⟨rfl, rfl, rfl, rfl, rfl, List.mergeSort_perm _ _⟩
+  | lengthFirstLexicographic =>
+    simp only [CoseKey.canonicalize] at h
+    split at h
+    · simp at h
+    · simp at h; subst h
+      exact ⟨rfl, rfl, rfl, rfl, rfl, List.mergeSort_perm _ _⟩
+
+/-! ### the two comparisons are total preorders on *all* labels (needed by the sort) -/
+def intKey (i : Int) : Int × Int := if i < 0 then (1, -i) else (0, i)
+
+theorem intOrd_le (i j : Int) : (intOrd i j != .gt) = true ↔ ((intKey i).1 < (intKey j).1 ∨ ((intKey i).1 = (intKey j).1 ∧ (intKey i).2 ≤ (intKey j).2)) := by
+  unfold intOrd intKey
+  by_cases n1 : i < 0 <;> by_cases n2 : j < 0 <;> simp [n1, n2]
+  · constructor
+    · intro h
+      by_cases hji : j < i
+      · omega
+      · by_cases hij : i < j
+        · rw [compare_gt hij] at h; simp at h
+        · omega
+    · intro h
+      by_cases hji : j < i
+      · rw [compare_lt hji]; simp
+      · have : i = j := by omega
+        subst this; rw [compare_self]; simp
+  · constructor
+    · intro h
+      by_cases hij : i < j
+      · omega
+      · by_cases hji : j < i
+        · rw [compare_gt hji] at h; simp at h
+        · omega
+    · intro h
+      by_cases hij : i < j
+      · rw [compare_lt hij]; simp
+      · have : i = j := by omega
+        subst this; rw [compare_self]; simp
+
+theorem labelLe_total (a b : Label) : labelLe a b || labelLe b a := by
+  cases a with
+  | int i =>
+    cases b with
+    | int j =>
+      simp only [labelLe, cmp_int]
+      have h1 := intOrd_le i j; have h2 := intOrd_le j i
+      by_cases x : (intOrd i j != .gt) = true
+      · cases hi : intOrd i j <;> simp_all
+      · have : (intOrd j i != .gt) = true := by
+          rw [h2]; rw [h1] at x; omega
+        cases hi : intOrd i j <;> cases hj : intOrd j i <;> simp_all
+    | text t => simp [labelLe, Label.cmp]
+  | text s =>
+    cases b with
+    | int j => simp [labelLe, Label.cmp]
+    | text t =>
+      simp only [labelLe, Label.cmp, textCmp]
+      by_cases hl : s.length < t.length
+      · rw [compare_nat_lt hl]; simp [Ordering.then]
+      · by_cases hg : t.length < s.length
+        · rw [compare_nat_gt hg, compare_nat_lt hg]; simp [Ordering.then]
+        · have : s.length = t.length := by omega
+          simp only [this, Nat.compare_eq_eq.mpr rfl, Ordering.then]
+          have := lexLe_total s t
+          simp only [lexLe] at this
+          cases h1 : lexCmp s t <;> cases h2 : lexCmp t s <;> simp_all
+
+theorem textLe_iff (p q : Bytes) : labelLe (.text p) (.text q) = true ↔
+    (p.length < q.length ∨ (p.length = q.length ∧ lexLe p q = true)) := by
+  simp only [labelLe, Label.cmp, textCmp]
+  by_cases hl : p.length < q.length
+  · rw [compare_nat_lt hl]; simp [Ordering.then, hl]
+  · by_cases hg : q.length < p.length
+    · rw [compare_nat_gt hg]; simp [Ordering.then]; omega
+    · have he : p.length = q.length := by omega
+      simp only [he, Nat.compare_eq_eq.mpr rfl, Ordering.then, lexLe]
+      cases lexCmp p q <;> simp
+
+theorem labelLe_trans (a b c : Label) (h1 : labelLe a b = true) (h2 : labelLe b c = true) : labelLe a c = true := by
+  cases a with
+  | int i =>
+    cases b with
+    | int j =>
+      cases c with
+      | int k =>
+        simp only [labelLe, cmp_int] at h1 h2 ⊢
+        have e1 : (intOrd i j != .gt) = true := by cases h : intOrd i j <;> simp_all
+        have e2 : (intOrd j k != .gt) = true := by cases h : intOrd j k <;> simp_all
+        have e3 : (intOrd i k != .gt) = true := by
+          rw [intOrd_le] at e1 e2 ⊢; omega
+        cases h : intOrd i k <;> simp_all
+      | text t => simp [labelLe, Label.cmp]
+    | text s =>
+      cases c with
+      | int k => simp [labelLe, Label.cmp] at h2
+      | text u => simp [labelLe, Label.cmp]
+  | text s =>
+    cases b with
+    | int j =>
+      cases c with
+      | int k => simp [labelLe, Label.cmp] at h2 ⊢; simp [labelLe, Label.cmp] at h1
+      | text t => simp [labelLe, Label.cmp] at h1
+    | text t =>
+      cases c with
+      | int k => simp [labelLe, Label.cmp] at h2
+      | text u =>
+        rw [textLe_iff] at h1 h2 ⊢
+        rcases h1 with h1 | ⟨h1, l1⟩ <;> rcases h2 with h2 | ⟨h2, l2⟩
+        · left; omega
+        · left; omega
+        · left; omega
+        · right; exact ⟨by omega, lexLe_trans _ _ _ l1 l2⟩
+
+theorem canonLe_iff (a b : Label) : labelLeCanonical a b = true ↔
+    ((encLabel a).length < (encLabel b).length ∨ ((encLabel a).length = (encLabel b).length ∧ lexLe (encLabel a) (encLabel b) = true)) := by
+  simp only [labelLeCanonical, cmp_canonical_is_lenlex, lenLex]
+  by_cases hl : (encLabel a).length < (encLabel b).length
+  · have : (encLabel a).length ≠ (encLabel b).length := by omega
+    simp [this, compare_nat_lt hl, hl]
+  · by_cases hg : (encLabel b).length < (encLabel a).length
+    · have : (encLabel a).length ≠ (encLabel b).length := by omega
+      simp [this, compare_nat_gt hg]; omega
+    · have he : (encLabel a).length = (encLabel b).length := by omega
+      simp only [he, bne_self_eq_false, Bool.false_eq_true, if_false, lexLe]
+      cases lexCmp (encLabel a) (encLabel b) <;> simp
+
+theorem canonLe_total (a b : Label) : labelLeCanonical a b || labelLeCanonical b a := by
+  have h1 := canonLe_iff a b; have h2 := canonLe_iff b a
+  have t := lexLe_total (encLabel a) (encLabel b)
+  by_cases x : labelLeCanonical a b = true
+  · simp [x]
+  · have : labelLeCanonical b a = true := by
+      rw [h2]; rw [h1] at x
+      by_cases hl : (encLabel b).length < (encLabel a).length
+      · left; exact hl
+      · right
+        refine ⟨by omega, ?_⟩
+        have he : (encLabel a).length = (encLabel b).length := by omega
+        cases h : lexLe (encLabel a) (encLabel b)
+        · simpa [h] using t
+        · exact absurd (Or.inr ⟨he, h⟩) x
+    simp [this]
+
+theorem canonLe_trans (a b c : Label) (h1 : labelLeCanonical a b = true) (h2 : labelLeCanonical b c = true) : labelLeCanonical a c = true := by
+  rw [canonLe_iff] at h1 h2 ⊢
+  rcases h1 with h1 | ⟨h1, l1⟩ <;> rcases h2 with h2 | ⟨h2, l2⟩
+  · left; omega
+  · left; omega
+  · left; omega
+  · right; exact ⟨by omega, lexLe_trans _ _ _ l1 l2⟩
+
+/-- the ordering used for the chosen standard order. -/
+def leOf (ord : CborOrdering) : (Label × Value) → (Label × Value) → Bool :=
+  match ord with
+  | .lexicographic => fun l r => labelLe l.1 r.1
+  | .lengthFirstLexicographic => fun l r => labelLeCanonical l.1 r.1
+
+theorem canonicalize_eq (k : CoseKey) (ord : CborOrdering) :
+    k.canonicalize ord = .ok { k with params := k.params.mergeSort (leOf ord) } := by
+  obtain ⟨k', hk⟩ := never_panics k ord
+  cases ord with
+  | lexicographic => rfl
+  | lengthFirstLexicographic =>
+    simp only [CoseKey.canonicalize] at hk ⊢
+    split at hk
+    · simp at hk
+    · next hc => simp only [hc, if_false]; rfl
+
+/-- after canonicalisation the extra parameters are sorted under the chosen ordering. -/
+theorem sorted (k k' : CoseKey) (ord : CborOrdering) (h : k.canonicalize ord = .ok k') : k'.params.Pairwise (fun l r => leOf ord l r = true) := by
+  rw [canonicalize_eq] at h
+  simp at h; subst h
+  cases ord with
+  | lexicographic =>
+    exact List.pairwise_mergeSort (fun a b c => labelLe_trans a.1 b.1 c.1) (fun a b => labelLe_total a.1 b.1) _
+  | lengthFirstLexicographic =>
+    exact List.pairwise_mergeSort (fun a b c => canonLe_trans a.1 b.1 c.1) (fun a b => canonLe_total a.1 b.1) _
+
+/-- canonicalising again is a no-op. -/
+theorem idempotent (k k' : CoseKey) (ord : CborOrdering) (h : k.canonicalize ord = .ok k') : k'.canonicalize ord = .ok k' := by
+  have hs := sorted k k' ord h
+  rw [canonicalize_eq]
+  rw [List.mergeSort_of_pairwise hs]
+
+/-- the unrestricted claim "encoded keys strictly ascending" fails for a key with extra label 0:
+    `{1: 4, 0: null}` comes back unchanged from both orderings and encodes with 01 before 00. -/
+def witness : CoseKey := ⟨.assigned Gen.idx_KeyType_Symmetric, [], none, [], [], [(.int 0, .null)]⟩
+theorem sorted_refuted :
+    (witness.canonicalize .lexicographic).map (fun k => toVec CoseKey.toValue k) = .ok (.ok [0xa2, 0x01, 0x04, 0x00, 0xf6]) ∧
+    (witness.canonicalize .lengthFirstLexicographic).map (fun k => toVec CoseKey.toValue k) = .ok (.ok [0xa2, 0x01, 0x04, 0x00, 0xf6]) := by
+  decide +kernel
+
+#print axioms never_panics
+#print axioms perm
+#print axioms labelLe_total
+#print axioms labelLe_trans
+#print axioms canonLe_total
+#print axioms canonLe_trans
+#print axioms sorted
+#print axioms idempotent
+#print axioms sorted_refuted
 
 end Coset.Props.C20
